@@ -189,6 +189,18 @@ def _write_replay(prop, case, res, viol, tier, seed):
 
 
 def main(modname, argv=None):
+    try:
+        return _main(modname, argv)
+    except SystemExit:
+        raise
+    except BaseException as exc:      # a crash of the machinery is never a verdict on the property
+        if isinstance(exc, KeyboardInterrupt):
+            raise
+        print("INCONCLUSIVE property=%s reason=check machinery failed: %s" % (modname.rsplit(".", 1)[-1].upper(), traceback.format_exc(limit=6).replace("\n", " | ")[-900:]))
+        return 2
+
+
+def _main(modname, argv=None):
     ap = argparse.ArgumentParser()
     ap.add_argument("--tier", default=None)
     ap.add_argument("--replay", default=None)
@@ -229,6 +241,11 @@ def main(modname, argv=None):
         if c["id"] in by_id:
             raise RuntimeError("duplicate case id %r" % c["id"])
         by_id[c["id"]] = c
+    if seed:
+        # entities are long-lived inside a worker, so the order in which a worker meets its cases is part of the workload (state carried
+        # between calls): every non-zero seed gives the workers another order and another partition of the same case list
+        import random as _random
+        _random.Random(seed).shuffle(cases)
     timeout = int(os.environ.get("VERIF_TIMEOUT", "0")) or (900 if tier == "quick" else 3 * 3600)
     if args.inproc:
         ctx = Ctx(tier, seed)
